@@ -332,6 +332,42 @@ func genShape(repo string) (*leanFile, error) {
 	for _, c := range cases {
 		q = append(q, fmt.Sprintf("%q", c))
 	}
+	// NextPackage looks at the package queue once, without blocking, before anything else can be selected: a
+	// top-level select of the function with a receive from the package queue and a default clause
+	looksFirst := false
+	if np != nil {
+		for _, st := range np.Body.List {
+			sel, ok := st.(*ast.SelectStmt)
+			if !ok {
+				continue
+			}
+			hasPkg, hasDefault := false, false
+			for _, c := range sel.Body.List {
+				cc := c.(*ast.CommClause)
+				if cc.Comm == nil {
+					hasDefault = true
+					continue
+				}
+				var rhs string
+				switch x := cc.Comm.(type) {
+				case *ast.ExprStmt:
+					rhs = exprStr(x.X)
+				case *ast.AssignStmt:
+					rhs = exprStr(x.Rhs[0])
+				}
+				if rhs == "<-tdsChan.packageCh" && len(cc.Body) > 0 {
+					if _, isRet := cc.Body[len(cc.Body)-1].(*ast.ReturnStmt); isRet {
+						hasPkg = true
+					}
+				}
+			}
+			if hasPkg && hasDefault && len(sel.Body.List) == 2 {
+				looksFirst = true
+			}
+		}
+	}
+	lf.pf("/-- `NextPackage` hands out a package that is already queued before it selects among errors and contexts -/\n")
+	lf.pf("def nextPackageLooksAtQueueFirst : Bool := %v\n", looksFirst)
 	lf.pf("/-- the cases of the final `select` of `NextPackage` -/\n")
 	lf.pf("def nextPackageSelect : List String := [%s]\n", strings.Join(q, ", "))
 	lf.pf("def nextPackageChecksClosedFirst : Bool := %v\n", closedFirst)
